@@ -762,7 +762,7 @@ macro_rules! lim5_ack {
 //@ mem: 10  timeout: 1500
 //@ desc: PUBACK under an outbound limit: no panic for any limit; Ok => one frame, truthful length == reported size, within the peer limit, only whole trailing diagnostics dropped; Err => OverMaxPacketSize and nothing appended; declined problem information => no diagnostics
 lim5_ack!(lim5_puback, PublishAck, PublishAck, any_puback_reason, 0x40);
-//@ props: C09 C08
+//@ props: C09
 //@ tier: quick
 //@ functions: v5::Codec::{encodev, set_max_outbound_size}, EncodeLtd for PublishAck2, ack_props::*, encoded_size_opt_props, encode_opt_props
 //@ bounds: as lim5_puback (PUBREL; both reason codes)
@@ -841,7 +841,7 @@ macro_rules! lim5_suback {
 //@ mem: 10  timeout: 1500
 //@ desc: SUBACK under an outbound limit (obligations as lim5_puback; reason codes never dropped)
 lim5_suback!(lim5_suback, SubscribeAck, SubscribeAck, any_suback_reason, 0x90);
-//@ props: C09 C08
+//@ props: C09
 //@ tier: quick
 //@ functions: v5::Codec::{encodev, set_max_outbound_size}, EncodeLtd for UnsubscribeAck, ack_props::*, reduce_limit
 //@ bounds: as lim5_suback
@@ -920,7 +920,7 @@ vharness! {
 }
 
 vharness! {
-    //@ props: C09 C08
+    //@ props: C09
     //@ tier: quick
     //@ functions: v5::Codec::{encodev, set_max_outbound_size}, EncodeLtd for Auth, reduce_limit, encoded_size_opt_props, encode_opt_props, var_int_len_from_size
     //@ bounds: peer Maximum Packet Size: every u32 except 1..=5; request-problem-information symbolic; all 3 reason codes; optional auth method/data (0..=1 byte) - never droppable; 0..=2 user properties; optional reason string 0..=2 bytes
@@ -991,7 +991,7 @@ vharness! {
 }
 
 vharness! {
-    //@ props: C09 C08
+    //@ props: C09
     //@ tier: quick
     //@ functions: v5::Codec::{encodev, set_max_outbound_size}, EncodeLtd for ConnectAck, reduce_limit, encoded_size_opt_props, encode_opt_props, var_int_len_from_size
     //@ bounds: peer Maximum Packet Size: every u32 except 1..=5; reason code symbolic; optional assigned client id (0..=1 byte), server keep-alive, session expiry - never droppable; 0..=2 user properties; optional reason string 0..=2 bytes; other properties at defaults
